@@ -7,6 +7,7 @@ mod c02;
 mod c03;
 mod c10;
 mod c13;
+mod c14;
 mod c15;
 mod c17;
 mod c18;
@@ -40,6 +41,7 @@ fn main() {
         "c03" => c03::run(&args),
         "c10" => c10::run(&args),
         "c13" => c13::run(&args),
+        "c14" => c14::run(&args),
         "c15" => c15::run(&args),
         "c17" => c17::run(&args),
         "c17-level" => c17::run_level_child(&args),
